@@ -267,6 +267,8 @@ def shapes(tier):
            # variants differing only in case that are NOT adjacent in the declaration, around unique ones
            enum_shape("case_group_split", ["Baz", "Foo", "BaZ"]),
            enum_shape("case_groups_interleaved", ["Ab", "Cd", "AB", "Other", "ab", "CD"]),
+           # names that begin with a lower-case `r` (raw or not): stripping a raw prefix must not eat them (seed C13-unraw-helper-trims-leading-r)
+           enum_shape("leading_r_names", ["red", "r#ref", "rgb", "Rgb", "Other"]),
            latin1_enum_shape(),
            error_text_shape()]
     if tier == "quick":
